@@ -1,6 +1,7 @@
 package props
 
 import (
+	"encoding/json"
 	"encoding/hex"
 	"sort"
 	"strings"
@@ -82,3 +83,5 @@ func hasPrefixAny(s string, ps ...string) bool {
 	}
 	return false
 }
+
+func jsonUnmarshal(s string, v interface{}) error { return json.Unmarshal([]byte(s), v) }
